@@ -240,13 +240,18 @@ Definition fr_of_string (s : str) : fr_result :=
 
 (* ---- ArithLogic::mkConst ----------------------------------------------------------------------- *)
 Inductive mk_result :=
-| MInt (name : str) (v : fr_result)      (* Int constant: symbol name = the raw text *)
+| MInt (name : option str) (v : fr_result)   (* Int constant; symbol name: the raw text, or (after commit d04fdc4)
+                                              the canonical spelling Number(name).get_str(); None = spelling of an undefined value *)
 | MReal (name : str) (v : fr_result)     (* Real constant: symbol name = normalised text *)
 | MApiExc                                (* ApiException *)
 | MStrConvExc                            (* strConvException escapes (not derived publicly from std::exception) *)
 | MCrash
 | MOverrun
 | MNotNumeric.                           (* handed to Logic::mkConst: symbol lookup *)
+
+Definition int_const_name_v (canon : bool) (name : str) : option str :=
+  if canon then match fr_of_string name with FRVal q => Some (qd_str q) | _ => None end else Some name.
+Definition int_const_name := int_const_name_v int_const_canonical.
 
 Definition mk_const_sort (real : bool) (name : str) : mk_result :=
   if real then
@@ -256,7 +261,7 @@ Definition mk_const_sort (real : bool) (name : str) : mk_result :=
     | StrCrash => MCrash
     | StrOverrun => MOverrun
     end
-  else if is_int_string name then MInt name (fr_of_string name) else MApiExc.
+  else if is_int_string name then MInt (int_const_name name) (fr_of_string name) else MApiExc.
 
 Inductive arith_logic := LIA | LRA | LIRA.
 Definition mk_const (l : arith_logic) (name : str) : mk_result :=
@@ -288,12 +293,15 @@ Fixpoint str_eqb (a b : str) : bool :=
   | x :: a', y :: b' => (code x =? code y) && str_eqb a' b'
   | _, _ => false
   end.
-Definition mk_eq_int_consts (uf : bool) (a b : str) : option bool :=
+Definition opt_str_eqb (a b : option str) : bool :=
+  match a, b with Some x, Some y => str_eqb x y | _, _ => false end.
+Definition mk_eq_int_consts_v (canon uf : bool) (a b : str) : option bool :=
   if is_int_string a && is_int_string b then
-    if str_eqb a b then Some true
+    if opt_str_eqb (int_const_name_v canon a) (int_const_name_v canon b) then Some true
     else if uf then Some false
     else match fr_of_string a, fr_of_string b with
          | FRVal p, FRVal q => Some (Qeq_bool p q)
          | _, _ => None
          end
   else None.
+Definition mk_eq_int_consts := mk_eq_int_consts_v int_const_canonical.
